@@ -66,6 +66,87 @@ theorem C04_literal (n : Nat) (h : n < 2 ^ 32) :
   rw [strtoul32_decimal n h]
   exact ⟨rfl, C04_literal_pos n, C04_literal_neg n⟩
 
+/-- **C04, unique decodability.**  The emitted chains are prefix-free: two instruction streams
+    that begin with the same bytes begin with the same instruction (opcode and 32-bit operand) and
+    continue with the same bytes.  No two (opcode, operand) pairs share an encoding, and no
+    encoding is a proper prefix of another. -/
+theorem C04_stream_unique (opc opc' : Nat) (hopc : opc < 12) (hopc' : opc' < 12) (v v' : Word)
+    (rest rest' : List Byte)
+    (h : encode opc v.toInt (instrLen v.toInt) ++ rest
+          = encode opc' v'.toInt (instrLen v'.toInt) ++ rest') :
+    opc = opc' ∧ v = v' ∧ rest = rest' := by
+  have h1 := C04 opc hopc v rest
+  have h2 := C04 opc' hopc' v' rest'
+  rw [h, h2] at h1
+  simp only [Option.some.injEq, Prod.mk.injEq] at h1
+  exact ⟨h1.1.symm, h1.2.1.symm, h1.2.2.2.symm⟩
+
+/-- lower bound half of `nibLoop_spec`. -/
+theorem nibLoop_lower (m n : Nat) :
+    ∃ k, nibLoop m n = n + k ∧ (k = 0 ∨ 16 ^ k ≤ m) := by
+  obtain ⟨k, h1, _, h3⟩ := nibLoop_spec m n
+  exact ⟨k, h1, h3⟩
+
+/-- The length hexasm chooses is the least sufficient one, except at the negative boundaries
+    `v = -16^size`, where `numNibbles` counts the nibbles of the magnitude and spends one NFIX
+    more than needed (see the example below: still a correct encoding by `C04`). -/
+theorem C04_length_minimal (v : Int) (size : Nat) (hf : fits v size)
+    (hb : v < 0 → -(16 ^ size : Int) < v) : instrLen v ≤ size := by
+  obtain ⟨h1, h2⟩ := hf
+  unfold instrLen numNibbles
+  by_cases h0 : v = 0
+  · subst h0; simp; omega
+  · simp only [h0, if_false]
+    by_cases hsmall : v < 0 ∧ v.natAbs < 16
+    · simp only [hsmall, and_self, if_true]
+      have hv := hsmall.1
+      simp only [hv, if_true] at h2
+      simp; omega
+    · simp only [hsmall, if_false]
+      obtain ⟨k, hk, hge⟩ := nibLoop_lower v.natAbs 1
+      rw [hk]
+      have hsz : 1 + k ≤ size := by
+        rcases hge with rfl | hge
+        · omega
+        · rcases Nat.lt_or_ge size (1 + k) with hlt | hok
+          · exfalso
+            have hle : size ≤ k := by omega
+            have hp : (16 ^ size : Nat) ≤ 16 ^ k := Nat.pow_le_pow_right (by decide) hle
+            have hp' : ((16 ^ size : Nat) : Int) ≤ (v.natAbs : Int) := by
+              exact_mod_cast Nat.le_trans hp hge
+            push_cast at hp'
+            by_cases hv : v < 0
+            · have := hb hv
+              omega
+            · simp only [hv, if_false] at h2
+              omega
+          · exact hok
+      by_cases hc : v < 0 ∧ 1 + k = 1
+      · simp only [hc, and_self, if_true]
+        have hv := hc.1
+        simp only [hv, if_true] at h2; omega
+      · simp only [hc, if_false]; exact hsz
+
+/-- Minimality for the 32-bit operands of `C04`: no shorter chain than the emitted one fits. -/
+theorem C04_no_shorter (v : Word) (size : Nat) (hlt : size < instrLen v.toInt)
+    (hb : v.toInt < 0 → -(16 ^ size : Int) ≠ v.toInt) : ¬ fits v.toInt size := by
+  intro hf
+  have hb' : v.toInt < 0 → -(16 ^ size : Int) < v.toInt := by
+    intro hv
+    have h2 := hf.2
+    simp only [hv, if_true] at h2
+    have := hb hv
+    omega
+  have := C04_length_minimal v.toInt size hf hb'
+  omega
+
+/-- The boundary case really is one byte longer than necessary on the real encoder's rule:
+    `-256` fits two bytes (`NFIX 0; op 0`) and gets three. -/
+example : fits (-256) 2 ∧ instrLen (-256) = 3 := by
+  constructor
+  · unfold fits; decide
+  · simp [instrLen, numNibbles, nibLoop]
+
 /-- Non-vacuity / regression examples, including the value the pinned tree got wrong. -/
 example : encode 3 (-2147483648) (instrLen (-2147483648)) = [0xF8, 0xE0, 0xE0, 0xE0, 0xE0, 0xE0, 0xE0, 0x30] := by
   have : instrLen (-2147483648) = 8 := by simp [instrLen, numNibbles, nibLoop]
